@@ -176,6 +176,40 @@ pub fn run_kind_hist<'a, I: Kind<'a>, E: ErrTy<'a, I>>(g: &G, inputs: Vec<(I, Ve
     Ok(last)
 }
 
+/// C13: the parser kept in a `chumsky::cache::Cache` (built once for 'static, handed out for every input lifetime)
+pub struct AstCacher(pub G);
+impl chumsky::cache::Cached for AstCacher {
+    type Parser<'src> = crate::build::P<'src, &'src str, Rich<'src, char>>;
+    fn make_parser<'src>(self) -> Self::Parser<'src> {
+        build::<&'src str, Rich<'src, char>>(&self.0, &vec![]).expect("grammar was built before")
+    }
+}
+
+/// the history of a case through one Cache: every input is a String that lives only for its own parse, so each
+/// `Cache::get` hands the one cached parser out at a different lifetime
+pub fn run_hist_cache(c: &Case, mode: &str) -> Result<Obs, String> {
+    val::reset_tracking();
+    let mut all: Vec<Vec<char>> = vec![c.inp.clone()];
+    all.extend(c.more.iter().cloned());
+    if all.iter().any(|v| v.iter().any(|t| !t.is_ascii())) {
+        return Err("histories over &str use ASCII tokens".into());
+    }
+    LOCS.with(|l| l.borrow_mut().clear());
+    BASE.with(|b| *b.borrow_mut() = (0, 1));
+    // fail early (and without panicking inside make_parser) if the grammar cannot be built for this kind
+    build::<&str, Rich<char>>(&c.g, &vec![])?;
+    let cache = chumsky::cache::Cache::new(AstCacher(c.g.clone()));
+    let mut obs = vec![];
+    for toks in all.iter() {
+        let s: String = toks.iter().collect();
+        let o = parse_one::<&str, Rich<char>, _>(cache.get(), &s[..], toks, mode);
+        obs.push(o);
+    }
+    let mut last = obs.pop().ok_or("empty history")?;
+    last.past = obs;
+    Ok(last)
+}
+
 pub fn parse_one<'a, I: Kind<'a>, E: ErrTy<'a, I>, Pz: Parser<'a, I, Val, crate::build::X<E>>>(p: &Pz, input: I, toks: &[char], mode: &str) -> Obs {
     let _ = take_log();
     BASE.with(|b| *b.borrow_mut() = input.base());
